@@ -69,6 +69,8 @@ struct Harness {
     std::vector<cg::ConsSpec> cons; std::vector<Constraint> con; std::vector<ConVals> conVal;
     // values not modelled by forcegen (read back from the history State / set by ops)
     bool euler = false;
+    // optional compliant contact (1/4 of the cases): sphere on a generated body against a half space on Ground, in penetration at the initial pose
+    std::unique_ptr<ContactTrackerSubsystem> tracker; std::unique_ptr<CompliantContactSubsystem> contact; bool contactActive = false;
     bool nontrivial = false; int queries = 0;
     explicit Harness(pbt::Ctx& c) : ctx(c) {}
 
@@ -84,6 +86,9 @@ struct Harness {
         { auto& v = add("kinetic energy"); v.push_back(sys.calcKineticEnergy(s)); }
         auto addVec = [&](const std::string& n, const Vector& x) { auto& v = add(n); for (int i = 0; i < x.size(); ++i) v.push_back(x[i]); };
         addVec("qdot", s.getQDot()); addVec("udot", s.getUDot()); addVec("qdotdot", s.getQDotDot()); addVec("zdot", s.getZDot());
+        if (contact) { auto& v = add("compliant contact forces"); int nc = contact->getNumContactForces(s); v.push_back(nc);
+            for (int i = 0; i < nc; ++i) { const ContactForce& cf = contact->getContactForce(s, i); const SpatialVec& F = cf.getForceOnSurface2(); for (int a = 0; a < 2; ++a) for (int j = 0; j < 3; ++j) v.push_back(F[a][j]);
+                for (int j = 0; j < 3; ++j) v.push_back(cf.getContactPoint()[j]); v.push_back(cf.getPotentialEnergy()); v.push_back(cf.getPowerDissipation()); } }
         addVec("multipliers", s.getMultipliers()); addVec("qerr", s.getQErr()); addVec("uerr", s.getUErr()); addVec("udoterr", s.getUDotErr());
         (void)matter;
         return R;
@@ -136,6 +141,7 @@ struct Harness {
                 for (int i = 0; i < G.nrow(); ++i) for (int j = u0; j < u0 + nu; ++j) mx = std::max(mx, std::abs(G(i, j))); }
             if (mx <= 1e-13) { ctx.label("site:rank0-constraints"); if (ctx.known("null-constraint-multipliers-uninitialized")) { skipMult = true; ctx.label("excluded:null-constraint-multipliers-uninitialized"); } }
         }
+        if (contact) contactActive = contact->getNumContactForces(s) > 0;
         Results A = collect(s), B = collect(f);
         // garbage multipliers (up to 1e300) times G^T cancel only up to rounding in the constraint body forces: every acceleration-level result is affected
         const bool garbageNonFinite = skipMult;
@@ -146,6 +152,11 @@ struct Harness {
         {   int zi = 0; for (size_t i = 0; i < el.size(); ++i) if (el[i].spec.kind == fg::LinearBushing) { if (val[i].disabled && zi < (int)skipZ.size()) { ctx.label("site:disabled-bushing-zdot"); if (ctx.known("disabled-force-zdot-stale")) { skipZ[zi] = true; ctx.label("excluded:disabled-force-zdot-stale"); } } ++zi; } }
         for (size_t g = 0; g < A.size(); ++g) {
             const Group& a = A[g]; const Group& b = B[g];
+            // Known finding contact-pe-velocity-history: CompliantContactSubsystem's potential energy is a Position-stage lazy cache entry, but its value
+            // is summed from the velocity-dependent contact forces when first requested at Velocity stage or later (a contact whose Hunt-Crossley force
+            // is clamped to zero while separating contributes no PE) and from zero-velocity forces when requested at Position stage; it is not
+            // recomputed when only u changes. Site: models with a compliant contact; excluded: the system potential energy group only.
+            if (contact && a.name == "potential energy" && ctx.known("contact-pe-velocity-history")) { ctx.label("excluded:contact-pe-velocity-history"); continue; }
             if (skipMult && (a.name == "multipliers" || (garbageNonFinite && (a.name == "udot" || a.name == "qdotdot" || a.name == "udoterr" || a.name == "body accelerations")))) continue;
             if (a.v.size() != b.v.size()) { ctx.fail(a.name + " " + when + ": sizes differ between history State and fresh State (" + std::to_string(a.v.size()) + " vs " + std::to_string(b.v.size()) + ")"); return false; }
             Real scale = 1; for (size_t i = 0; i < a.v.size(); ++i) { if (std::isfinite(a.v[i])) scale = std::max(scale, std::abs(a.v[i])); if (std::isfinite(b.v[i])) scale = std::max(scale, std::abs(b.v[i])); }
@@ -188,6 +199,26 @@ void property(const pbt::Tape& t, pbt::Ctx& ctx) {
         for (int k = 0; k < 3; ++k) c.qi[k] %= std::max(1, mbgen::mobNQ(H.spec.bodies[c.mob[k] - 1].type, true));
         H.cons.push_back(c); }
     H.m.reset(new mbgen::Built(H.spec));
+    // ---- compliant contact for a quarter of the cases (words 50, 51 of segment 0 are not used by the other decoders)
+    {   uint32_t w50 = t[0].size() > 50 ? t[0][50] : 0u, w51 = t[0].size() > 51 ? t[0][51] : 0u;
+        pbt::Seg cs{w50, w51, w51 * 2654435761u + 12345u, (w50 ^ w51) * 2246822519u + 977u}; pbt::Reader cr(cs);
+        uint32_t cw = cr.w();
+        if (cw % 4u == 1u) {
+            // pose of the chosen body at the initial state, from a throw-away copy of the tree
+            const int cb = 1 + int((cw >> 2) % uint32_t(nb)); Real frac = 0.2 + 0.7 * cr.unit(), R = 0.2 + 0.6 * cr.unit(), stiff = std::pow(10.0, 2 + 2 * cr.unit());
+            mbgen::Built pre(H.spec); pre.finish(H.spec); pre.setState(H.spec); pre.sys.realize(pre.state, Stage::Position);
+            const Vec3 offs = H.spec.bodies[cb - 1].com; const Vec3 cG = pre.mb[cb].findStationLocationInGround(pre.state, offs);
+            if (cG.norm() < 1e6) {   // (CantileverFreeBeam default/garbage poses etc. stay out)
+                H.tracker.reset(new ContactTrackerSubsystem(H.m->sys)); H.contact.reset(new CompliantContactSubsystem(H.m->sys, *H.tracker));
+                ContactMaterial mat(stiff, 0.1 + 0.9 * frac, 0.8, 0.5, 0.1);      // stiffness, dissipation, static/dynamic/viscous friction
+                const Real h = cG[1] - frac * R;                                  // half space occupies y < h: the sphere centre is frac*R above the plane
+                H.m->mb[0].updBody().addContactSurface(Transform(Rotation(-Pi / 2, ZAxis), Vec3(0, h, 0)), ContactSurface(ContactGeometry::HalfSpace(), mat));
+                H.m->mb[cb].updBody().addContactSurface(Transform(offs), ContactSurface(ContactGeometry::Sphere(R), mat));
+                H.contactActive = true; ctx.label("contact:compliant-in-penetration");
+                if (ctx.wantDesc) ctx.desc << " compliant contact: sphere R=" << R << " at the mass centre of body " << cb << " against half space y<" << h << " on Ground (centre " << frac << " R above the plane), stiffness " << stiff << "\n";
+            }
+        }
+    }
     // lock by default (word LW of the body unit)
     std::vector<int> lockDef(nb + 1, (int)Motion::NoLevel);
     for (int b = 1; b <= nb; ++b) { int ui = b - 1 < (int)bodyU.size() ? bodyU[b - 1] : -1; uint32_t w = ui >= 0 && t[ui].size() > (size_t)LW ? t[ui][LW] % 16u : 0u;
@@ -239,6 +270,11 @@ void property(const pbt::Tape& t, pbt::Ctx& ctx) {
             ctx.label(mode == 0 ? "op:set-q-u" : mode == 1 ? "op:set-q" : "op:set-u");
             if (ctx.wantDesc) ctx.desc << " op: set " << (mode == 0 ? "q,u" : mode == 1 ? "q" : "u") << " of body " << b + 1 << " -> q=" << mb.getQAsVector(s) << " u=" << mb.getUAsVector(s) << "  [stage before: " << before.getName() << "]\n";
             noteChange(before, mode == 2 ? Stage::Velocity : Stage::Position);
+            if (H.contact && mode == 2) {   // u-only change with a compliant contact in the model: mostly queried at once
+                if (H.contactActive) ctx.label("op:u-only-with-active-contact");
+                if (seg.size() > (size_t)QW && seg[QW] % 4u != 0u) { if (ctx.wantDesc) ctx.desc << " op: query (immediately after the u-only change)\n"; ctx.label("op:query-after-u-only");
+                    if (!H.query("(query right after a u-only change of body " + std::to_string(b + 1) + ", operation " + std::to_string(nOps) + ")")) return; }
+            }
         } else if (cls == 7) {
             Real tt = r.real(0, 10); s.setTime(tt); ctx.label("op:set-time"); if (ctx.wantDesc) ctx.desc << " op: setTime(" << tt << ")\n"; noteChange(before, Stage::Time);
         } else if (cls == 8) {
@@ -368,6 +404,23 @@ void directedNullConstraintMultipliers(pbt::Ctx& ctx) {
     ctx.check(same, "multipliers of a rank-0 constraint set are uninitialised memory: " + S(lam[0][0]) + "," + S(lam[0][1]) + "," + S(lam[0][2]) + " vs " + S(lam[1][0]) + "," + S(lam[1][1]) + "," + S(lam[1][2]) + " for identical state values");
 }
 
+void directedContactPE(pbt::Ctx& ctx) {
+    MultibodySystem sys; SimbodyMatterSubsystem matter(sys); GeneralForceSubsystem forces(sys);
+    ContactTrackerSubsystem tracker(sys); CompliantContactSubsystem contact(sys, tracker);
+    ContactMaterial mat(855.0, 1.0, 0.8, 0.5, 0.1);
+    matter.Ground().updBody().addContactSurface(Transform(Rotation(-Pi / 2, ZAxis), Vec3(0)), ContactSurface(ContactGeometry::HalfSpace(), mat));
+    Body::Rigid body(MassProperties(1, Vec3(0), Inertia(1))); body.addContactSurface(Transform(), ContactSurface(ContactGeometry::Sphere(0.2), mat));
+    MobilizedBody::Translation b(matter.Ground(), Transform(), body, Transform());
+    State s = sys.realizeTopology(); b.setQFromVector(s, Vector(Vec3(0, 0.04, 0))); sys.realize(s, Stage::Acceleration);
+    Real pe0 = sys.calcPotentialEnergy(s);
+    b.setUFromVector(s, Vector(Vec3(0, 2, 0))); sys.realize(s, Stage::Acceleration);      // only u changes: separating fast, contact force clamped to zero
+    Real peH = sys.calcPotentialEnergy(s);
+    State f = sys.getDefaultState(); b.setQFromVector(f, Vector(Vec3(0, 0.04, 0))); b.setUFromVector(f, Vector(Vec3(0, 2, 0))); sys.realize(f, Stage::Acceleration);
+    Real peF = sys.calcPotentialEnergy(f);
+    ctx.desc << "sphere R=0.2 centre 0.04 above a half space: PE at u=0: " << pe0 << "; history State after u=(0,2,0) + realize: " << peH << "; fresh State with the same q,u: " << peF << "\n";
+    ctx.check(peH == peF, "compliant contact potential energy depends on the history: " + S(peH) + " after a u-only change vs " + S(peF) + " in a fresh State with the same values");
+}
+
 pbt::Config config() {
     pbt::Config c; c.prop = "C16"; c.K = mbgen::K; c.minUnits = 1;
     c.quick = {2000, 12000, 60, 20}; c.thorough = {10000, 100000, 72, 100};
@@ -376,8 +429,9 @@ pbt::Config config() {
                      "Weld mobilizers are excluded (constraints between relatively immobile bodies are C08's finding)"};
     c.directed = {{"mls-stale-cache", "mls-stale-cache", directedMlsStale}, {"gravity-exclude-ground-nan", "gravity-exclude-ground-nan", directedGravityGroundNaN},
                   {"disabled-force-zdot-stale", "disabled-force-zdot-stale", directedDisabledBushingZDot},
-                  {"null-constraint-multipliers", "null-constraint-multipliers-uninitialized", directedNullConstraintMultipliers}};
-    c.requiredLabels = {"change-after-realize", "op:query", "op:lock", "op:lockAt", "op:unlock", "op:toggle-euler", "op:constraint-enable", "op:constraint-disable", "op:set-constraint-parameter/Rod", "op:set-constraint-parameter/Ball", "op:set-constraint-parameter/ConstantCoordinate", "op:set-constraint-parameter/ConstantSpeed", "op:set-constraint-parameter/ConstantAcceleration", "op:set-constraint-parameter/NoSlip1D", "op:set-constraint-parameter/SphereOnPlaneContact", "op:set-constraint-parameter/SphereOnSphereContact", "op:set-constraint-parameter/LineOnLineContact", "op:query-after-constraint-op", "op:force-disable", "op:force-enable",
+                  {"null-constraint-multipliers", "null-constraint-multipliers-uninitialized", directedNullConstraintMultipliers},
+                  {"contact-pe-velocity-history", "contact-pe-velocity-history", directedContactPE}};
+    c.requiredLabels = {"contact:compliant-in-penetration", "op:u-only-with-active-contact", "change-after-realize", "op:query", "op:lock", "op:lockAt", "op:unlock", "op:toggle-euler", "op:constraint-enable", "op:constraint-disable", "op:set-constraint-parameter/Rod", "op:set-constraint-parameter/Ball", "op:set-constraint-parameter/ConstantCoordinate", "op:set-constraint-parameter/ConstantSpeed", "op:set-constraint-parameter/ConstantAcceleration", "op:set-constraint-parameter/NoSlip1D", "op:set-constraint-parameter/SphereOnPlaneContact", "op:set-constraint-parameter/SphereOnSphereContact", "op:set-constraint-parameter/LineOnLineContact", "op:query-after-constraint-op", "op:force-disable", "op:force-enable",
                         "op:set-q", "op:set-u", "op:set-time", "op:set-z", "op:MobilityLinearSpring.setStiffness", "op:Gravity.setMagnitude", "op:Gravity.setBodyIsExcluded", "op:LinearBushing.setStiffness", "op:DiscreteForces.addForceToBodyPoint",
                         "constraint:Rod", "constraint:Ball", "constraint:ConstantSpeed", "constraint:Weld", "constraint:PointInPlane", "constraint:PointOnLine", "constraint:ConstantAngle", "constraint:ConstantOrientation", "constraint:CoordinateCoupler", "constraint:SpeedCoupler", "constraint:PrescribedMotion", "constraint:PointOnPlaneContact", "lock-by-default", "force:TwoPointLinearSpring", "force:TwoPointConstantForce", "force:ConstantForce", "force:ConstantTorque", "force:MobilityLinearSpring"};
     return c;
